@@ -228,7 +228,7 @@ def inject(rng, nvars, js, classes):
 def shard(shard_no, nshards, seed, tier, extra):
     res = common.Result()
     rng = common.rng_for(seed, "c15", shard_no)
-    n_cases = 1200 if tier == "quick" else 50000
+    n_cases = 2500 if tier == "quick" else 200000
     d = common.Driver("rel", shim=True)
     for i in range(n_cases):
         nvars, js, classes = gen(rng)
